@@ -26,7 +26,8 @@ ASSUMPTIONS = [
     "beyond 40 characters only one family is explored: 100-400 character strings with little in common (48 pairs quick / 640 thorough)",
 ]
 SHRINK = {'strings': ['a', 'b'], 'lists': ['before'], 'enums': {'quiet': False}}
-TECHNIQUE = 'exhaustive enumeration over small alphabets + Hypothesis sampling, against a reference LCS dynamic programme'
+TECHNIQUE = ('exhaustive enumeration over small alphabets + Hypothesis sampling (repeating blocks, comparison histories, quiet '
+             'printer), against a reference LCS dynamic programme; the same oracle re-run in a python -O child interpreter')
 MANIFEST_TEXT = ("Exhaustive comparison with an independent LCS reference for every pair of strings over {a,b} up to length 5/7 "
                  "and {a,b,c} up to 3/5, plus sampled longer strings with shared affixes and runs; both the edit script and "
                  "the rendered text are measured. Exploration, not proof: longer strings and larger alphabets are sampled only.")
